@@ -435,3 +435,53 @@ Q(name="e2_first_packet_credit", props=["C07"], func=r"connection/mod\.rs:245:1[
   functions=["Connection::handle_first_packet (up to on_packet_authenticated)"], pre=hfp_pre, post=hfp_post,
   bounds="every header / payload length < 2^32: before any packet processing the anti-amplification credit of the new connection equals exactly the size of the first Initial packet (coalesced remainder is credited by handle_coalesced, outside this query)",
   replay=("conn_first_packet_credit_native", lambda m: [dict(a=40, b=200, c=100), dict(a=40, b=200, c=0)]))
+
+
+# ------------------------------------------------------------------ C08 / C09: Endpoint::handle_event(ResetToken): the replaced routing entry is the stored one
+def rt_pre(c):
+    # EndpointEventInner::ResetToken = 1
+    return eq(c.inp("_3.0#discr", I64), bv(1))
+
+
+def _leaf(c, p, key, sub, sort):
+    return c.ex.read_key(p.p.state, key + sub, sort).t
+
+
+def rt_post(c, p):
+    idx = p.called(r"IndexMut<ConnectionHandle>>::index_mut")
+    rem = p.called(r"ResetTokenTable::remove")
+    ins = p.called(r"ResetTokenTable::insert")
+    if not idx or not ins:
+        return "false"
+    # memory behind the &mut ConnectionMeta that index_mut returned: "*<local holding the reference>"
+    holder = [k for k, v in p.p.state.alias.items() if v == idx[0][2]]
+    if not holder:
+        return "false"
+    meta = "*" + holder[0]
+    rt = "%s.%d" % (meta, c.field("endpoint.rs", "ConnectionMeta", "reset_token"))
+    had_old = eq(c.inp(rt + "#discr", I64), bv(1))
+    conj = []
+    # the new pair is stored and inserted for THIS handle
+    conj.append(eq(p.out(rt + "#discr", I64), bv(1)))
+    a0, a1, a2 = ins[0][1][1][1], ins[0][1][2][1], ins[0][1][3]
+    conj.append(eq(_leaf(c, p, a0, "#discr", I64), c.inp("_3.0@ResetToken.0#discr", I64)))
+    conj.append(eq(_leaf(c, p, a1, ".0[0]", ("bv", 8, False)), c.inp("_3.0@ResetToken.1.0[0]", ("bv", 8, False))))
+    conj.append(eq(_leaf(c, p, a2[1].key() if not isinstance(a2[1], str) else a2[1], ".0", BV64), c.inp("_2.0", BV64)))
+    if rem:
+        r0, r1 = rem[0][1][1][1], rem[0][1][2][1]
+        conj.append(had_old)
+        # removed under the address / token that were stored, not under the event's
+        conj.append(eq(_leaf(c, p, r0, "#discr", I64), c.inp(rt + "@Some.0.0#discr", I64)))
+        conj.append(eq(_leaf(c, p, r0, "@V4.0.0.0[0]", ("bv", 8, False)), c.inp(rt + "@Some.0.0@V4.0.0.0[0]", ("bv", 8, False))))
+        conj.append(eq(_leaf(c, p, r1, ".0[0]", ("bv", 8, False)), c.inp(rt + "@Some.0.1.0[0]", ("bv", 8, False))))
+    else:
+        conj.append(not_(had_old))
+    return and_(*conj)
+
+
+Q(name="e2_endpoint_reset_token_event", props=["C08", "C09"], func=r"endpoint\.rs[^>]*>::handle_event$",
+  pure=[r"IndexMut<ConnectionHandle>>::index_mut"],
+  modifies=lambda c: {r"ResetTokenTable::(remove|insert)": ["*_1.%d" % c.field("endpoint.rs", "Endpoint", "index")]},
+  functions=["Endpoint::handle_event (ResetToken arm)"], pre=rt_pre, post=rt_post,
+  bounds="every stored Option<(address, token)> and every reported pair; Slab indexing and the table's remove / insert are opaque - the query fixes WHICH values they are called with (symbolic leaves of the stored vs. reported pair are distinct variables)",
+  replay=("endpoint_reset_token_event_native", lambda m: [dict(same_addr=0), dict(same_addr=1)]))
